@@ -13,6 +13,6 @@ QTopOnly == { [k |-> "manydir", n |-> "many", to |-> "entries"],     \* sharded 
               [k |-> "manydir", n |-> "wide", to |-> "entries"] }     \* 5000 short names: the largest plain directory block, just below the sharding threshold
 QDirNames == { "d", "sp ace", ".dd" }
 QConfigs == { [version |-> v, nowrap |-> w, stdin |-> s, spell |-> "abs", dest |-> "fresh"] : v \in {1, 2}, w \in BOOLEAN, s \in BOOLEAN }
-       \cup { [version |-> v, nowrap |-> w, stdin |-> FALSE, spell |-> sp, dest |-> "fresh"] : v \in {1, 2}, w \in BOOLEAN, sp \in {"dot", "dirdot", "hidden"} }
+       \cup { [version |-> v, nowrap |-> w, stdin |-> FALSE, spell |-> sp, dest |-> "fresh"] : v \in {1, 2}, w \in BOOLEAN, sp \in {"dot", "dirdot", "hidden", "slash"} }
        \cup { [version |-> 2, nowrap |-> w, stdin |-> s, spell |-> "abs", dest |-> d] : w \in BOOLEAN, s \in BOOLEAN, d \in {"link", "stale"} }
 =============================================================================
